@@ -102,7 +102,10 @@ def run(repo, rep):
 
     _builder(repo, rep)
     _highlight(repo, rep)
-    _splitter(repo, rep)
+    # the splitter, the escaper, the quote choice and the single-line literal, interpreted on a corpus of small concrete str / bytes
+    # values (replaces the typestate analysis of str_to_lines: the conservation of pieces is decided on what the code computes)
+    from . import strmodel
+    rep.floor('C02:string-model', strmodel.run(repo, rep), 5)
     _patterns(repo, rep)
     _escaping(repo, rep)
     # ---------------------------------------------------------------- C02.f
@@ -187,214 +190,6 @@ def _builder(repo, rep):
                           'trailing whitespace of the last fragment of a line - and a bytes literal must carry the b prefix)' % (provs, want),
                           nontrivial=True)
     rep.floor('C02.g', n, 4)
-
-
-# --------------------------------------------------------------------------- C02.b / C02.c
-def _splitter(repo, rep):
-    m = repo.module('prettyprinter')
-    f = m.funcs.get('str_to_lines')
-    if f is None:
-        raise AnalysisError('str_to_lines vanished')
-    from engine.astutil import expand_ifexp
-    node = expand_ifexp(f.node)
-    # roles ---------------------------------------------------------------
-    held = flagv = it_name = None
-    for s in ast.walk(node):
-        if isinstance(s, ast.Assign) and isinstance(s.value, ast.Call) and call_name(s.value) == 'next' and isinstance(s.targets[0], ast.Tuple):
-            held = s.targets[0].elts[0].id
-            flagv = s.targets[0].elts[1].id
-            it_name = src(s.value.args[0])
-    line = None
-    for s in ast.walk(node):
-        if isinstance(s, ast.Call) and isinstance(s.func, ast.Attribute) and s.func.attr == 'append' and held and \
-                s.args and src(s.args[0]) == held:
-            line = src(s.func.value)
-    halves = None
-    for s in ast.walk(node):
-        if isinstance(s, ast.Assign) and isinstance(s.value, ast.Call) and call_name(s.value) == 'split_at' and isinstance(s.targets[0], ast.Tuple):
-            halves = (src(s.targets[0].elts[0]), src(s.targets[0].elts[1]))
-            split_arg = src(s.value.args[1]) if len(s.value.args) > 1 else None
-    if not (held and line and halves):
-        raise AnalysisError('str_to_lines: cannot identify the held piece / line buffer / split halves')
-    left, right = halves
-    problems = []
-
-    # state: (H, L, F) H: 0 none, 1 holding, 2 holding with left half consumed/empty, 3 split pending
-    #                 L: 0 buffer empty or flushed, 1 buffer has unflushed content
-    #                 F: 1 the remainder was flushed after loop exit (tracked by yields)
-    def transfer(st, state):
-        H, L = state
-        if isinstance(st, ast.Assign) and isinstance(st.value, ast.Call) and call_name(st.value) == 'next' \
-                and isinstance(st.targets[0], ast.Tuple) and src(st.targets[0].elts[0]) == held:
-            if H != 0:
-                problems.append((st.lineno, 'a new piece is fetched while the previous one is still held unconsumed: it is lost'))
-            return [(1, L)]
-        if isinstance(st, ast.Assign) and isinstance(st.value, ast.Call) and call_name(st.value) == 'split_at' \
-                and isinstance(st.targets[0], ast.Tuple):
-            if H != 1:
-                problems.append((st.lineno, 'split of a piece that is not held'))
-            if len(st.value.args) < 2 or src(st.value.args[1]) != held:
-                problems.append((st.lineno, 'split_at is applied to %s, not to the held piece' % (src(st.value.args[1]) if len(st.value.args) > 1 else '?')))
-            return [(3, L)]
-        if isinstance(st, ast.Assign) and len(st.targets) == 1 and src(st.targets[0]) == held:
-            v = src(st.value)
-            if v == 'None':
-                if H not in (0, 4):
-                    problems.append((st.lineno, 'the held piece%s is discarded (%s = None) before it was appended or yielded: characters are lost'
-                                     % (' (the right half of a split)' if H == 2 else '', held)))
-                return [(0, L)]
-            if v == right:
-                if H not in (2, 4):
-                    problems.append((st.lineno, 'the right half replaces the held piece although the left half was not placed'))
-                return [(1, L)]
-            problems.append((st.lineno, 'the held piece is overwritten by %s' % v))
-            return [(1, L)]
-        if isinstance(st, ast.Assign) and len(st.targets) == 1 and src(st.targets[0]) == line:
-            if src(st.value) == '[]':
-                if L != 0:
-                    problems.append((st.lineno, 'the line buffer is reset although its content was not yielded: characters are lost'))
-                return [(H, 0)]
-            return [(H, L)]
-        if isinstance(st, ast.Expr) and isinstance(st.value, ast.Call) and isinstance(st.value.func, ast.Attribute) \
-                and src(st.value.func.value) == line and st.value.func.attr in ('append', 'extend', 'insert'):
-            a = src(st.value.args[-1]) if st.value.args else ''
-            if a == held:
-                if H != 1:
-                    problems.append((st.lineno, 'a piece is appended to the line twice (or without being held): characters are duplicated'))
-                return [(0, 1)]
-            if a == left:
-                if H != 3:
-                    problems.append((st.lineno, 'left half appended outside a split'))
-                return [(2, 1)]
-            problems.append((st.lineno, 'something other than the held piece is appended to the line: %s' % a))
-            return [(H, 1)]
-        if isinstance(st, ast.Expr) and isinstance(st.value, ast.Yield):
-            y = st.value.value
-            t = src(y) if y is not None else ''
-            if line in t and held in t:
-                if H != 1:
-                    problems.append((st.lineno, 'the held piece is yielded twice or without being held'))
-                return [(0, 0)]
-            if line in t:
-                return [(H, 0)]
-            return [(H, L)]
-        return [(H, L)]
-
-    def branch(test, state):
-        H, L = state
-        neg = False
-        t = test
-        while isinstance(t, ast.UnaryOp) and isinstance(t.op, ast.Not):
-            t = t.operand
-            neg = not neg
-        name = src(t)
-
-        def tf(true_state, false_state):
-            return ([false_state], [true_state]) if neg else ([true_state], [false_state])
-        if name == held:
-            # truthy: a real piece is held; falsy: nothing (None or an empty piece, which carries no characters)
-            tr = [(H, L)] if H != 0 else []
-            fa = [(0, L)]
-            return (fa, tr) if neg else (tr, fa)
-        if name == line:
-            return tf((H, 1), (H, 0)) if True else None
-        if name == left and H == 3:
-            return tf((3, L), (2, L))
-        if name == right and H == 2:
-            return tf((2, L), (4, L))
-        # compound tests mentioning the buffer: ``not flag and line`` / ``len(line) > 1``
-        if isinstance(test, ast.BoolOp) and isinstance(test.op, ast.And):
-            cur_t = [state]
-            falses = []
-            for v in test.values:
-                nt = []
-                for s_ in cur_t:
-                    a, b = branch(v, s_)
-                    nt.extend(a)
-                    falses.extend(b)
-                cur_t = nt
-            return cur_t, (falses or [state])
-        if isinstance(test, ast.Compare) and src(test.left) == 'len(%s)' % line:
-            cp = compare_parts(test)
-            if cp and ((cp[1] == '>' and src(cp[2]) == '0') or (cp[1] == '>=' and src(cp[2]) == '1')):
-                return [(H, 1)], [(H, 0)]
-            if cp and cp[1] in ('>', '>='):
-                return [(H, 1)], [(H, L)]
-        return [state], [state]
-
-    def raises(st, state):
-        if any(isinstance(c, ast.Call) and call_name(c) == 'next' for c in _walk_no_nested(st)):
-            return [(state, 'StopIteration')]
-        return []
-    fl = Flow(transfer, raises, branch)
-    # only the part after the early exit for short strings matters; run the whole function
-    out = fl.run(node, (0, 0))
-    rep.count(fl.visited_stmts)
-    n = 0
-    for ln, msg in sorted(set(problems)):
-        n += 1
-        rep.fail('C02.b', 'str_to_lines:linear:%s' % msg[:48], '%s:%d' % (f.module.relpath, ln), 'str_to_lines: ' + msg)
-    n += 1
-    rep.check(not problems, 'C02.b', 'str_to_lines:pieces-consumed-exactly-once', f.where,
-              'every piece is appended or yielded exactly once; buffer reset only after a yield',
-              '%d linearity problems in the splitter' % len(set(problems)), nontrivial=True)
-    end_bad = sorted({(s, ln) for s, ln in out.returns if s != (0, 0) and ln >= (node.end_lineno or 0) - 2})
-    n += 1
-    rep.check(not end_bad, 'C02.b', 'str_to_lines:remainder-yielded-at-exit', f.where, 'nothing held or buffered when the generator ends',
-              'the generator can end in state (held, buffered) = %s: the tail of the string is dropped' % [s for s, _ in end_bad], nontrivial=True)
-    # the iterator covers every split part, tagged alternately
-    txt = src(node)
-    n += 1
-    rep.check('zip(alternating_words_ws, cycle(' in txt.replace('\n', '').replace('  ', '') or 'zip(alternating_words_ws,' in txt, 'C02.b',
-              'str_to_lines:iterates-all-parts', f.where, 'the loop consumes every part of pattern.split(s)',
-              'the split parts are no longer all fed to the loop')
-    for s in ast.walk(node):
-        if isinstance(s, ast.Assign) and src(s.targets[0]) == 'alternating_words_ws':
-            n += 1
-            ok = isinstance(s.value, ast.Call) and isinstance(s.value.func, ast.Attribute) and s.value.func.attr == 'split' \
-                and [src(a) for a in s.value.args] == [f.params[2]] and not s.value.keywords
-            rep.check(ok, 'C02.b', 'str_to_lines:split-whole-string@%s' % src(s.value.func.value if isinstance(s.value, ast.Call) and isinstance(s.value.func, ast.Attribute) else s.value),
-                      '%s:%d' % (f.module.relpath, s.lineno), 'pattern.split(s) of the whole value, no maxsplit',
-                      'the parts come from %s' % src(s.value), nontrivial=True)
-    # split_at halves partition the sequence
-    sa = m.funcs.get('split_at')
-    n += 1
-    ok = False
-    if sa is not None:
-        rets = [r for r in ast.walk(sa.node) if isinstance(r, ast.Return)]
-        i, seq = sa.params[0], sa.params[1]
-        ok = len(rets) == 1 and src(rets[0].value).replace(' ', '') == '(%s[:%s],%s[%s:])' % (seq, i, seq, i)
-    rep.check(ok, 'C02.b', 'split_at:partitions', sa.where if sa else f.where, 'split_at(i, s) = (s[:i], s[i:])',
-              'split_at no longer returns (s[:i], s[i:])', nontrivial=True)
-    # the short-string shortcut yields the value itself
-    g = Guards(node)
-    n += 1
-    first = [s for s in ast.walk(node) if isinstance(s, ast.Expr) and isinstance(s.value, ast.Yield) and src(s.value.value) == f.params[2]]
-    rep.check(len(first) == 1, 'C02.b', 'str_to_lines:short-string-whole', f.where, 'a string that fits is yielded whole',
-              'the shortcut for short strings no longer yields the string itself')
-    rep.floor('C02.b:splitter', n, 7)
-
-    # ---------------------------------------------------------------- C02.c
-    n = 0
-    for s in ast.walk(node):
-        if isinstance(s, ast.Expr) and isinstance(s.value, ast.Yield):
-            y = s.value.value
-            t = src(y)
-            fs = g.of(s)
-            ok = False
-            if t == f.params[2]:
-                ok = any(ff.pol and ff.text == t for ff in fs)
-            elif held in t and line in t:
-                ok = any((not ff.pol) and ff.text == 'not %s' % held for ff in fs) or any(ff.pol and ff.text == held for ff in fs) or \
-                    _after_nonempty_guard(node, s, held)
-            elif line in t:
-                ok = any(_implies_nonempty(ff, line) for ff in fs)
-            n += 1
-            rep.check(ok, 'C02.c', 'str_to_lines:yield:%s' % t[:50], '%s:%d' % (f.module.relpath, s.lineno),
-                      'yielded piece is known non-empty',
-                      'str_to_lines yields %s without a dominating non-emptiness test (%s): an empty literal piece' % (t, g.texts(s)[-3:]),
-                      nontrivial=True)
-    rep.floor('C02.c', n, 5)
 
 
 def _implies_nonempty(ff, name):
